@@ -698,7 +698,7 @@ var nonNegDecls func(fn *types.Func) *ast.FuncDecl
 // forms (= and += only). Otherwise the sub-expression that is not.
 func nonNegative(info *types.Info, body *ast.BlockStmt, e ast.Expr, depth int) string {
 	e = ast.Unparen(e)
-	if depth > 6 {
+	if depth > 14 {
 		return exprString(e)
 	}
 	if tv, ok := info.Types[e]; ok && tv.Value != nil {
@@ -729,6 +729,21 @@ func nonNegative(info *types.Info, body *ast.BlockStmt, e ast.Expr, depth int) s
 			if d := nonNegDecls(fn); d != nil {
 				if in := returnedExpr(info, d, x.Args); in != nil {
 					return nonNegative(info, d.Body, in, depth+1)
+				}
+				// a helper that accumulates and returns a local: that local, inside the helper
+				if nb := len(d.Body.List); nb > 0 {
+					if r, isRet := d.Body.List[nb-1].(*ast.ReturnStmt); isRet && len(r.Results) == 1 {
+						only := true
+						ast.Inspect(d.Body, func(n ast.Node) bool {
+							if rr, isR := n.(*ast.ReturnStmt); isR && rr != r {
+								only = false
+							}
+							return only
+						})
+						if only {
+							return nonNegative(info, d.Body, r.Results[0], depth+1)
+						}
+					}
 				}
 			}
 		}
